@@ -169,6 +169,7 @@ Definition qobs_code (o : qobs) : list nat :=
   | QRaised ErrTimeout => [3; 2; 0]
   | QRaised ErrRuntime => [3; 3; 0]
   | QRaised ErrAttr => [3; 4; 0]
+  | QRaised ErrBackend => [3; 5; 0]
   | QGen => [4]
   end.
 
